@@ -1,5 +1,6 @@
 SPECIFICATION Spec
 CONSTANTS
+  TrackCov = FALSE
   Thread = {"t1", "t2", "t3"}
   Creator = "t1"
   MaxHandles = 3
